@@ -266,7 +266,7 @@ func genC10(rt *rapid.T) WF {
 func TestC10(t *testing.T) {
 	r := newRun(t, "C10")
 	defer r.finish()
-	g := wfGen{MaxLeaves: 5, MaxFlows: 4, Actions: []string{"a", "b", "", "default", "error"}, PErr: 25, PExecErr: 150, MaxN: 2, MaxVisits: 3, FuelMax: 14, MaxRuns: 2, PreferFlows: true, PBatch: 120}
+	g := wfGen{MaxLeaves: 5, MaxFlows: 4, Actions: []string{"a", "b", "", "default"}, PErr: 25, PExecErr: 150, MaxN: 2, MaxVisits: 3, FuelMax: 14, MaxRuns: 2, PreferFlows: true, PBatch: 120}
 	rapidPart(r, "structured", r.pick(5000, 80000), genC10, checkC10)
 	rapidPart(r, "rand-nested", r.pick(3000, 50000), g.gen, checkC10)
 	// denser inner flows: fewer leaves, more flows, richer action alphabet
